@@ -5,6 +5,19 @@ PLAN = {
     "C01": [dict(test="TestC01", quick=(2500, 16), thorough=(60000, 16), timeout_thorough=7200)],
     "C03": [dict(test="TestC03", quick=(2500, 16), thorough=(60000, 16), timeout_thorough=7200)],
     "C04": [dict(test="TestC04", quick=(2500, 16), thorough=(60000, 16), timeout_thorough=7200)],
+    "C07": [
+        dict(test="TestC07N", quick=(6000, 8), thorough=(150000, 8), timeout_thorough=7200),
+        dict(test="TestC07S", quick=(2000, 8), thorough=(40000, 8), timeout_thorough=7200),
+    ],
+    "C08": [
+        dict(test="TestC08N", quick=(6000, 8), thorough=(150000, 8), timeout_thorough=7200),
+        dict(test="TestC08S", quick=(2000, 8), thorough=(40000, 8), timeout_thorough=7200),
+    ],
+    "C09": [
+        dict(test="TestC09N", quick=(5000, 8), thorough=(100000, 8), timeout_thorough=7200),
+        dict(test="TestC09S", quick=(2000, 8), thorough=(40000, 8), timeout_thorough=7200),
+    ],
+    "C11": [dict(test="TestC11", quick=(2500, 16), thorough=(50000, 16), timeout_thorough=7200)],
     "C10": [dict(test="TestC10", quick=(2500, 16), thorough=(60000, 16), timeout_thorough=7200)],
     "C18": [
         dict(test="TestC18Dense", kind="plain", quick=(0, 1), thorough=(0, 1)),
@@ -26,6 +39,10 @@ RULES = {
     "C03": SIM_RULE + "Oracle at every correct commit callback: strict ValidateBlockConsensus on another correct node with the committing term's prev block/proof returns nil, the reference validator accepts, the block satisfies the proof's hash. Non-trivial = at commit time the committing node's commit log held a COMMIT from a Byzantine member/outsider or from another view, or the commit is in a view > 0.",
     "C04": SIM_RULE + "Oracle at every correct commit: block height = h, block valid flag set (a block every correct validator rejects is never committed), block satisfies the certified hash, a PREPREPARE for that hash and view signed by the view's leader exists in the history, and some correct member's ValidateBlockProposal approved it or a correct member proposed it. Non-trivial = a consumer-invalid proposal was delivered to a correct node and some correct node committed.",
     "C10": SIM_RULE + "Oracle over each correct node's send stream joined with its reference-validated inbox: <=1 proposal/PREPARE/COMMIT hash per (h,v), PREPARE only for a delivered proposal of that view's leader and never by the leader, COMMIT only with a prepared certificate or commit quorum for exactly (v,hash), VIEW_CHANGE views strictly increasing, no PREPREPARE/PREPARE below the current view. Non-trivial = two different proposals for one (h,v) were delivered, or a duplicated/replayed delivery, or a commit quorum before being prepared.",
+    "C07": "Engine N: one real node in a generated state (committee 4..9, weights, leader order, 0..5 prefix steps: timeouts, valid proposals/NEW_VIEWs, prepares), then 1..3 candidate messages (NEW_VIEW, stand-alone PREPREPARE, VIEW_CHANGE to the node as leader) built VALID by reference builders and given 0..3 mutations from a 43-entry catalogue (header fields, sender, signatures, votes dropped/duplicated/unsigned/re-signed/outsider/other view-height-instance-type, proofs forged/other views/below quorum, embedded proposal fields, other/invalid block). Oracle: any effect (store, send, view move) of a NEW_VIEW implies ref.ValidNewView; PREPARE/adoption in v>0 only via NEW_VIEW; a leader's NEW_VIEW embeds only reference-valid votes of quorum weight. Engine S adds the same oracle as a monitor on every delivery of generated cluster executions. Non-trivial = candidate with exactly one mutation, or an unmutated candidate that was accepted (control). Distinct = the whole case.",
+    "C08": "Engine N as C07 with candidates PREPREPARE/PREPARE/COMMIT/VIEW_CHANGE; oracle: any effect (Store* true, send, view move, commit) implies ref.mayInfluence (signature under the claimed sender's key, sender in committee, this instance and height, header tag = envelope, role fits, share valid, not stale, proof valid). Engine S: same oracle on every delivery of generated cluster executions. Non-trivial = exactly one mutation, or accepted control (N); a Byzantine/outsider message was stored (S).",
+    "C09": "Engine N: node brought to prepared in generated views then timed out (voter), or fed 1..8 generated VIEW_CHANGE candidates (with genuine proofs of different views, mutated variants: block missing/other, proof dropped/forged/below quorum...) as leader (collector); engine S: every VIEW_CHANGE / NEW_VIEW a correct node emits in generated cluster executions. Oracle: VIEW_CHANGE sent while prepared carries a reference-valid proof of the highest prepared view + matching block; NEW_VIEW embeds exactly the stored votes, each still verifying, proposes the block of the highest-view valid proof, fresh proposal iff no vote carries a proof. Non-trivial = vote sent while prepared, or NEW_VIEW emitted with a proof among its votes (S); exactly one mutation or accepted control (N).",
+    "C11": SIM_RULE + "Oracle at every delivery of a message a correct node sent to a correct peer in a matching state (same height and chain; NEW_VIEW: peer view <= v and no proposal stored for v; VIEW_CHANGE: peer leads v and view <= v; PREPARE: peer view <= v; COMMIT: any): the accepting effect happens (adopted+stored+PREPARE / Store* call). Non-trivial = judged delivery in a run where some correct node had stored a Byzantine/outsider message before.",
     "C18": "cases = (committee size n in 4..64, view): dense 0..4n, powers of two +-1, neighbourhoods of 2^31, 2^32, 2^63, 2^64-1-k, random 64-bit; oracle VerifLeaderOf(view, committee) == committee[view mod n] in uint64, no panic, and every window of n consecutive views has n distinct leaders. Non-trivial = view >= 2^31 or within n of 0 or a multiple of n. Distinct = (n, view).",
     "C06": "cases = (weight vector, id list A, id list B): exhaustive small vectors x all subset pairs, random vectors n<=16 with weight classes up to 2^64, and boundary-shaped committees [F,W-F],[F+1,W-F-1],[F+1,F+1,W-2F-2],[F,F,W-2F],[F,1,W-F-1] for W around 7..2^64; id lists include duplicates and non-members. Non-trivial = total weight > 2^53 or weight(A) within 1 of f or Q. Distinct = distinct (weights, A, B).",
 }
@@ -37,6 +54,19 @@ ASSUMPTIONS = {
     ],
     "C03": [dict(test="TestC03", quick=(2500, 16), thorough=(60000, 16), timeout_thorough=7200)],
     "C04": [dict(test="TestC04", quick=(2500, 16), thorough=(60000, 16), timeout_thorough=7200)],
+    "C07": [
+        dict(test="TestC07N", quick=(6000, 8), thorough=(150000, 8), timeout_thorough=7200),
+        dict(test="TestC07S", quick=(2000, 8), thorough=(40000, 8), timeout_thorough=7200),
+    ],
+    "C08": [
+        dict(test="TestC08N", quick=(6000, 8), thorough=(150000, 8), timeout_thorough=7200),
+        dict(test="TestC08S", quick=(2000, 8), thorough=(40000, 8), timeout_thorough=7200),
+    ],
+    "C09": [
+        dict(test="TestC09N", quick=(5000, 8), thorough=(100000, 8), timeout_thorough=7200),
+        dict(test="TestC09S", quick=(2000, 8), thorough=(40000, 8), timeout_thorough=7200),
+    ],
+    "C11": [dict(test="TestC11", quick=(2500, 16), thorough=(50000, 16), timeout_thorough=7200)],
     "C10": [dict(test="TestC10", quick=(2500, 16), thorough=(60000, 16), timeout_thorough=7200)],
     "C18": [
         dict(test="TestC18Dense", kind="plain", quick=(0, 1), thorough=(0, 1)),
